@@ -210,6 +210,12 @@ pub(crate) fn run_conc(w: &[&str]) -> String {
             }
         }
     }
+    // Closed is final: it may be reported only once every accepted message has been received
+    if let Some(pos) = evs.iter().position(|e| e.1 == "pop-closed") {
+        if evs[pos..].iter().any(|e| e.1 == "push" || e.1 == "pop") || !drained.is_empty() {
+            verdict.push("CLOSED-BEFORE-DRAINED".to_string());
+        }
+    }
     if drained.len() as i64 != remaining {
         verdict.push(format!("LOST-{}", remaining - drained.len() as i64));
     }
